@@ -1057,7 +1057,7 @@ def gen_cfg(rng, alpha_kinds=('fixed',), universe_kinds=('static',), max_days=25
         # one or two assets priced at a sizeable fraction of the account: targets of 0, 1, 2 ... units, positions that
         # must be sold down to nothing when the allocation falls below one unit's price
         mk['level'] = {s_: cfg['cash'] * rng.choice([0.03, 0.1, 0.3, 0.6, 1.5]) / max(1, n) for s_ in rng.sample(syms, min(len(syms), rng.randint(1, 2)))}
-    if nan_cells == 'any' and rng.random() < 0.15:
+    if nan_cells == 'any' and rng.random() < 0.25:
         # expensive shares whose adjusted close is quoted to cents while the close has four decimals: Adj Close is
         # within 1e-5 of Close but not equal to it
         mk['adj_round'] = 2
